@@ -76,6 +76,7 @@ func runEF(c *Ctx) (obls []Obl) {
 	efOnly(c, a, "EF-name-only", "nameArguments", "", []string{"Name"}, "Arg")
 	efOnly(c, a, "EF-augment-only", "augment", "Snapshot", []string{"Processed"}, "Args")
 	efTpl(c, a)
+	efAST(c, a)
 	return
 }
 
@@ -660,4 +661,92 @@ func runAL(c *Ctx) (obls []Obl) {
 	check("ScanSnapshot/snapshot", snapObjs, "the returned snapshot")
 	check("ScanSnapshot/results", s.pts[s.ret(fn)], "a result of ScanSnapshot (snapshot, suffix, error)")
 	return
+}
+
+// efAST (EF-ast-readonly): the syntax trees that go/parser returns are kept
+// in the per-snapshot cache and consulted for every frame of the file: code
+// that reads them must not write them. The result of every parser.Parse*
+// call in package stack is a seed object standing for the whole tree; no
+// store, in-place append, or library call that rewrites its argument
+// (slices.Insert/Delete/Reverse/Sort..., sort.*) may reach that memory.
+var slicesMutators = map[string]bool{"Insert": true, "Delete": true, "DeleteFunc": true, "Reverse": true, "Sort": true, "SortFunc": true, "SortStableFunc": true,
+	"Compact": true, "CompactFunc": true, "Replace": true, "Clip": false}
+
+func efAST(c *Ctx, a *flAgg) {
+	const rule = "EF-ast-readonly"
+	s := newPtSolver(c.L, false)
+	fns := c.L.SrcFuncs("stack")
+	for _, f := range fns {
+		s.reach(f)
+	}
+	seeds := objset{}
+	nParse := 0
+	for _, f := range fns {
+		for _, b := range f.Blocks {
+			for _, in := range b.Instrs {
+				call, ok := in.(*ssa.Call)
+				if !ok {
+					continue
+				}
+				cal := call.Call.StaticCallee()
+				if cal == nil || calleePkg(cal) != "go/parser" || !strings.HasPrefix(cal.Name(), "Parse") {
+					continue
+				}
+				nParse++
+				o := s.newObj("AST", nil, call)
+				s.pts[s.contNode[o]][o] = struct{}{}
+				s.pts[s.keyNode[o]][o] = struct{}{}
+				n := s.comp(call, 0)
+				delete(s.nocarry, n)
+				s.pts[n][o] = struct{}{}
+				seeds[o] = struct{}{}
+			}
+		}
+	}
+	if nParse == 0 {
+		a.und(rule, "parse-sites", "no call of go/parser found in package stack", token.NoPos)
+		return
+	}
+	s.solve()
+	A := s.closure(seeds)
+	bad := 0
+	for _, k := range s.sinks {
+		hit := false
+		for o := range s.pts[k.node] {
+			if _, ok := A[o]; ok {
+				hit = true
+			}
+		}
+		if hit {
+			bad++
+			a.bad(rule, funcKey(k.fn)+"/"+k.what, "a cached syntax tree is written ("+k.what+"): the next frame of the same file is decoded against a modified tree", k.pos)
+		}
+	}
+	for _, e := range s.ext {
+		touches := false
+		for _, an := range e.args {
+			for o := range s.pts[an] {
+				if _, ok := A[o]; ok {
+					touches = true
+				}
+			}
+		}
+		if !touches || strings.HasPrefix(e.name, "invoke:") {
+			continue
+		}
+		short := e.name
+		if i := strings.LastIndexByte(short, '.'); i >= 0 {
+			short = short[i+1:]
+		}
+		mut := extMutatesArg0[e.name] || extMutator(e.pkg, e.name) || (e.pkg == "slices" && slicesMutators[short]) || e.pkg == "sort"
+		if mut {
+			bad++
+			a.bad(rule, funcKey(e.fn)+"/ext:"+e.name, "part of a cached syntax tree is handed to "+e.name+", which rewrites its argument in place: later frames of the same function are decoded against a shifted parameter list", e.pos)
+		}
+	}
+	c.stat("EF", "ast_parse_sites", nParse)
+	c.stat("EF", "ast_objects", len(A))
+	if bad == 0 {
+		a.ok(rule, "stack", fmt.Sprintf("nothing in package stack writes memory of a parsed syntax tree (%d parse site(s), %d write sites and %d library calls looked at)", nParse, len(s.sinks), len(s.ext)), token.NoPos)
+	}
 }
